@@ -1356,13 +1356,22 @@ rrul_fill_wly(echs_instant_t *restrict tgt, size_t nti, rrulsp_t rr)
 	if (wd_mask) {
 		unsigned int w = echs_scale_wday(srcsca, y, m, d);
 
-		/* duplicate the wd_mask so we can just right shift it
-		 * and wrap around the end of the week */
-		wd_mask |= wd_mask << 7U;
-		/* zap to current day so increments are relative to DTSTART */
-		wd_mask >>= w;
+		/* weeks run from Monday to Sunday, go back to the Monday of
+		 * the week DTSTART is in, days before DTSTART are dropped
+		 * in the loop below */
+		for (; w > MON; w--) {
+			if (UNLIKELY(--d < 1U)) {
+				if (UNLIKELY(--m < 1U)) {
+					y--;
+					m = 12U;
+				}
+				d = echs_scale_ndim(srcsca, y, m);
+			}
+		}
+		/* zap to Monday so increments are relative to it */
+		wd_mask >>= MON;
 		/* clamp wd_mask to exactly 7 days */
-		wd_mask &= 0b111111U;
+		wd_mask &= 0b1111111U;
 		/* calculate wd increments
 		 * i.e. a bitset of increments, 4bits per increment */
 		for (unsigned int i = 0U, j = 0U;
@@ -1426,8 +1435,9 @@ rrul_fill_wly(echs_instant_t *restrict tgt, size_t nti, rrulsp_t rr)
 				if (UNLIKELY(echs_instant_lt_p(rr->until, x))) {
 					goto fin;
 				} else if (!(m_mask & (1U << this_m))) {
-					/* skip the whole month */
-					goto skip;
+					/* skip this day, the rest of the week
+					 * might be in another month */
+					break;
 				}
 				/* attach scale and convert back to greg */
 				x = echs_instant_attach_scale(x, srcsca);
@@ -1435,8 +1445,6 @@ rrul_fill_wly(echs_instant_t *restrict tgt, size_t nti, rrulsp_t rr)
 				tgt[res++] = x;
 			}
 		} while ((incs >>= 4U) && res < nti);
-	skip:
-		;
 	}
 
 fin:
